@@ -430,48 +430,53 @@ Proof.
 Qed.
 
 (** * (b) for Pin *)
+Lemma pinned_cell s q f l p :
+  onehot s q -> isact fb f = true -> l < nlevels fb f -> p < T fb ->
+  (lappl fb f p = true /\ bit s p f l = true <-> cell_eqb (get_cell q f p) (Some l) = true).
+Proof.
+  intros (_ & _ & _ & Hbit & _ & Hnone) Hf Hl Hp. destruct (lappl fb f p) eqn:Hap.
+  - rewrite (Hbit p f l Hp Hf Hap Hl). unfold is_level. tauto.
+  - rewrite (Hnone p f Hp Hf Hap). cbn [cell_eqb]. split; [intros [H _]; discriminate|discriminate].
+Qed.
+
 Theorem pin_sem s q i f l wb :
   onehot s q -> constraint_f1 fb (FPin i f l wb) = true ->
   (Ppin fb i f l wb s <-> constraint_ok sem q (mk_c (KPin i (geometry_sustain fb wb f)) f l (windows_of fb wb)) = true).
 Proof.
-  intros Ho Hc. cbn [constraint_f1] in Hc. rewrite !andb_true_iff in Hc. destruct Hc as [[[[Hf Hcx] Hl] Hg] Hs].
-  apply Nat.ltb_lt in Hl. apply Nat.eqb_eq in Hs. apply negb_true_iff in Hcx. destruct (geom_ok_some fb wb Hg) as [rs Ers].
-  pose proof (f1_ranges_bound fb wb rs Ers) as Hb.
+  intros Ho Hc. destruct (pin_guard fb HF1 HT i f l wb Hc) as (Hf & Hl & _ & ps & Ep & Hpb).
+  destruct (pin_guard_geom fb i f l wb Hc) as (Hsu & rs & Ers).
+  set (su := geometry_sustain fb wb f) in *.
   unfold Ppin, pins, constraint_ok, mk_c. cbn [k_kind k_factor k_level k_windows].
-  rewrite (ranges_of fb wb rs Ers), Hs, (f1_trial_numbers fb f i wb rs Hs Ers).
-  destruct Ho as (Hq & Hr & Hcell & Hbit & _). cbv zeta.
-  set (pos' := fun r : nat * nat => (if (i <? 0)%Z then Z.of_nat (snd r) + i else Z.of_nat (fst r) + i)%Z).
+  rewrite (ranges_of fb wb rs Ers), Ep. rewrite (pins_eq fb i f wb rs Ers) in Ep. fold su in Ep. inversion Ep as [Eps]. clear Ep. rewrite !Eps.
+  cbv zeta.
   assert (Epos : forall w : nat * nat,
-            (if (0 <=? i)%Z then Z.of_nat (fst w) + i * Z.of_nat 1 else Z.of_nat (snd w) + i * Z.of_nat 1)%Z = pos' w).
-  { intros w. unfold pos'. destruct (Z.leb_spec 0 i), (Z.ltb_spec i 0); lia. }
-  set (inb := fun r : nat * nat => ((Z.of_nat (fst r) <=? pos' r) && (pos' r <? Z.of_nat (snd r)))%Z).
-  set (plist := flat_map (fun r : nat * nat => if inb r then [Z.to_nat (pos' r)] else []) rs).
-  change (flat_map _ rs) with plist.
-  assert (Hpl : forall p, In p plist <-> exists r, In r rs /\ inb r = true /\ p = Z.to_nat (pos' r)).
-  { intros p. unfold plist. rewrite in_flat_map. split.
-    - intros (r & Hr' & Hp). exists r. destruct (inb r); [|destruct Hp]. destruct Hp as [<-|[]]. auto.
-    - intros (r & Hr' & Hi & ->). exists r. split; [exact Hr'|]. rewrite Hi. now left. }
-  assert (Hrow : forall r, In r rs -> inb r = true ->
-            (bit s (Z.to_nat (pos' r)) f l = true <->
-             cell_eqb (nth (Z.to_nat (pos' r) + 0) (nth f q []) None) (Some l) = true)).
-  { intros r Hr' Hi. pose proof (proj1 (Forall_forall _ _) Hb r Hr') as [_ Hr2].
-    unfold inb in Hi. apply andb_true_iff in Hi. destruct Hi as [E1 E2]. apply Z.leb_le in E1. apply Z.ltb_lt in E2.
-    rewrite Nat.add_0_r, (Hbit (Z.to_nat (pos' r)) f l ltac:(lia) Hf (lappl_simple fb HF1 f _ Hf Hcx) Hl). reflexivity. }
+            (if (0 <=? i)%Z then Z.of_nat (fst w) + i * Z.of_nat su else Z.of_nat (snd w) + i * Z.of_nat su)%Z = pin_pos i su w).
+  { intros w. unfold pin_pos. destruct (Z.leb_spec 0 i), (Z.ltb_spec i 0); lia. }
+  assert (Hpl : forall p, In p ps <-> exists r j, In r rs /\ pin_in i su r = true /\ j < su /\ p = Z.to_nat (pin_pos i su r) + j).
+  { intros p. rewrite <- Eps, in_flat_map. split.
+    - intros (r & Hr' & Hp). destruct (pin_in i su r) eqn:Hi; [|destruct Hp].
+      apply in_map_iff in Hp. destruct Hp as (j & <- & Hj). apply in_seq in Hj. exists r, j. repeat split; auto; lia.
+    - intros (r & j & Hr' & Hi & Hj & ->). exists r. split; [exact Hr'|]. rewrite Hi.
+      apply (in_map (fun j0 => Z.to_nat (pin_pos i su r) + j0)). apply in_seq. lia. }
+  assert (Hcellp : forall p, In p ps ->
+            (lappl fb f p = true /\ bit s p f l = true <-> cell_eqb (nth p (nth f q []) None) (Some l) = true)).
+  { intros p Hp. apply (pinned_cell s q f l p Ho Hf Hl). exact (proj1 (Forall_forall _ _) Hpb p Hp). }
   rewrite andb_true_iff, forallb_forall. split.
   - intros [Hne Hall]. split.
-    + apply existsb_exists. destruct plist as [|p ps] eqn:Epl; [contradiction|].
-      destruct (proj1 (Hpl p) (or_introl eq_refl)) as (r & Hr' & Hi & _).
+    + apply existsb_exists. destruct ps as [|p ps'] eqn:Epl; [contradiction|].
+      destruct (proj1 (Hpl p) (or_introl eq_refl)) as (r & j & Hr' & Hi & _).
       exists r. split; [exact Hr'|]. unfold in_range. rewrite Epos. exact Hi.
-    + intros r Hr'. unfold in_range. rewrite Epos. fold (inb r). destruct (inb r) eqn:Hi; [|reflexivity].
-      cbn [seq forallb]. rewrite andb_true_r. apply (Hrow r Hr' Hi).
-      apply (proj1 (Forall_forall _ _) Hall). apply Hpl. exists r. auto.
+    + intros r Hr'. unfold in_range. rewrite Epos. fold (pin_in i su r). destruct (pin_in i su r) eqn:Hi; [|reflexivity].
+      apply forallb_forall. intros j Hj. apply in_seq in Hj.
+      assert (Hin : In (Z.to_nat (pin_pos i su r) + j) ps) by (apply Hpl; exists r, j; repeat split; auto; lia).
+      apply (Hcellp _ Hin). exact (proj1 (Forall_forall _ _) Hall _ Hin).
   - intros [Hex Hall]. apply existsb_exists in Hex. destruct Hex as (r0 & Hr0 & Hin0).
-    unfold in_range in Hin0. rewrite Epos in Hin0. fold (inb r0) in Hin0. split.
-    + intros Epl. assert (Hp : In (Z.to_nat (pos' r0)) plist) by (apply Hpl; exists r0; auto).
+    unfold in_range in Hin0. rewrite Epos in Hin0. fold (pin_in i su r0) in Hin0. split.
+    + intros Epl. assert (Hp : In (Z.to_nat (pin_pos i su r0) + 0) ps) by (apply Hpl; exists r0, 0; repeat split; auto).
       rewrite Epl in Hp. destruct Hp.
-    + apply Forall_forall. intros p Hp. apply Hpl in Hp. destruct Hp as (r & Hr' & Hi & ->).
-      specialize (Hall r Hr'). unfold in_range in Hall. rewrite Epos in Hall. fold (inb r) in Hall. rewrite Hi in Hall.
-      cbn [seq forallb] in Hall. rewrite andb_true_r in Hall. now apply (Hrow r Hr' Hi).
+    + apply Forall_forall. intros p Hp. apply (Hcellp p Hp). apply Hpl in Hp. destruct Hp as (r & j & Hr' & Hi & Hj & ->).
+      specialize (Hall r Hr'). unfold in_range in Hall. rewrite Epos in Hall. fold (pin_in i su r) in Hall. rewrite Hi in Hall.
+      rewrite forallb_forall in Hall. apply Hall. apply in_seq. lia.
 Qed.
 
 End F1Sem.
